@@ -63,3 +63,55 @@ func TestDevScenario(t *testing.T) {
 		do(graph.Op{"name": "RunProgram", "p": []any{map[string]any{"k": "tr", "n": 1.0}, map[string]any{"k": "bc", "n": 1.0}}})
 	}
 }
+
+// TestDevToken (development aid, VERIF_DEV=1): the hand-assembled token (soft failure, kill) on a fixed path.
+func TestDevToken(t *testing.T) {
+	if os.Getenv("VERIF_DEV") == "" {
+		t.Skip()
+	}
+	for _, soft := range []bool{true, false} {
+		a := New(t, Consts{Kind: "external", HasAlias: true, InitU1: 2, InitU2: 1, Soft: soft, Mortal: true})
+		ctx := a.W.Ctx
+		show := func(tag string) {
+			b, _ := json.Marshal(a.Project(ctx))
+			fmt.Printf("soft=%v %-28s %s\n", soft, tag, b)
+		}
+		do := func(op graph.Op) {
+			var res string
+			ctx, res = a.Apply(ctx, op)
+			b, _ := json.Marshal(op)
+			show(string(b) + " -> " + res)
+		}
+		prog := func(ss ...any) graph.Op {
+			var p []any
+			for i := 0; i < len(ss); i += 2 {
+				p = append(p, map[string]any{"k": ss[i], "n": ss[i+1]})
+			}
+			return graph.Op{"name": "RunProgram", "p": p}
+		}
+		show("init")
+		do(graph.Op{"name": "Register", "by": "gov"})
+		do(graph.Op{"name": "ConvertERC20", "u": "u1", "r": "u1", "n": 1.0})
+		do(graph.Op{"name": "ConvertERC20", "u": "u2", "r": "u2", "n": 2.0})
+		do(graph.Op{"name": "Transfer", "u": "u2", "r": "u1", "n": 2.0})
+		do(graph.Op{"name": "Transfer", "u": "u2", "r": "exe", "n": 1.0})
+		do(graph.Op{"name": "Approve", "u": "u1", "r": "u2", "n": 1.0})
+		do(graph.Op{"name": "TransferFrom", "n": 2.0})
+		do(graph.Op{"name": "TransferFrom", "n": 1.0})
+		do(prog("tr", 2.0, "ap", 2.0))
+		do(prog("ap", 2.0, "cc", 1.0))
+		do(graph.Op{"name": "Kill", "by": "u1"})
+		do(graph.Op{"name": "Kill", "by": "owner"})
+		do(graph.Op{"name": "Kill", "by": "owner"})
+		do(graph.Op{"name": "Transfer", "u": "u2", "r": "u1", "n": 1.0})
+		do(prog("tr", 1.0, "ap", 2.0))
+		do(prog("cc", 1.0))
+		do(prog("bc", 1.0))
+		do(graph.Op{"name": "ConvertDenom", "u": "u1", "n": 1.0, "k": "toAlias"})
+		do(graph.Op{"name": "ConvertCoin", "u": "u1", "r": "mod", "n": 1.0})
+		do(graph.Op{"name": "ConvertCoin", "u": "u1", "r": "zero", "n": 2.0})
+		do(graph.Op{"name": "ConvertCoin", "u": "u1", "r": "u1", "n": 1.0})
+		do(graph.Op{"name": "Register", "by": "gov"})
+	}
+}
+
